@@ -25,7 +25,7 @@ from ..expr import walk
 from ..memo import MemoSim
 from ..runner import Outcome
 from . import c05, c06
-from .c06 import live_held, elem_of, ensure_spaces
+from .c06 import live_held, elem_of, ensure_spaces, create_spaces
 
 ID = "C08"
 LEVEL = "exploration"
@@ -217,7 +217,7 @@ def run_case(case):
                 if res[0] != "err":
                     return out.fail("no-error", "%r: modelx %r, reference %r" % (op, got, exp[:2]), i)
                 disturbed = True
-            ensure_spaces(sim, rm, sid)
+            create_spaces(sim, rm, sid)     # (what the parameter formulas of new instances run is linked, too)
             h0 = sim.hits
             sim.simulate(exp[2], eo[0])
             if disturbed and sim.hits > h0 and exp[0] == "ok":
@@ -238,7 +238,7 @@ def run_case(case):
                 out.discard = True
                 return out
             if sid is not None:
-                ensure_spaces(sim, rm, sid)
+                create_spaces(sim, rm, sid)
             if k == "set_value":
                 sim.assign(target, op[4]); apply_ref(rm, op)
             elif k == "clear_at":
